@@ -120,6 +120,14 @@ CLAIMED["C12"] = (
     "container normalisation (pandas/polars/pyarrow objects, time zones, Arrow null bitmaps) is C-extension behaviour and NOT decided: "
     "changes confined to _val_to_numpy/to_arrow/_convert_timestamp_to_tz_unaware are not expected to be caught", "DESIGN.md 4 C12")
 
+CLAIMED["C19"] = (
+    "array level: in a sample of the configurations of every kernel family (reductions with threads/chunks/masks, cumulative, rolling, row "
+    "selection, transform, GroupBy state operations) no store into an array owned by the caller or by the GroupBy state is reachable for any "
+    "input within the bound (each store site is a guarded obligation decided by the solver), and no returned array shares storage with one; "
+    "the same obligation is active in every other property's run",
+    "zero-copy views made by pyarrow/pandas, pandas objects handed out from caches and aliasing of returned pandas objects are outside",
+    "DESIGN.md 4 C19")
+
 NOT_APPLICABLE = {
     "C11": "labelling/order/shape are decided entirely by pandas Index/MultiIndex/DataFrame operations (C extension semantics); nothing symbolic to quantify over within reach of the encoder (DESIGN.md 5)",
     "C14": "margins and crosstab are reindex/groupby(level)/concat/unstack on pandas objects; not encodable (DESIGN.md 5)",
